@@ -7,6 +7,7 @@ package stateworld
 
 import (
 	"crypto/ecdsa"
+	"crypto/sha256"
 	"encoding/json"
 	"fmt"
 	"math/big"
@@ -103,6 +104,21 @@ func newEnv() *Env {
 	return &Env{Disk: d, DB: db, St: st}
 }
 
+// observed is the universe plus the penalty account (only written by the EndBlock penalty
+// operation, never picked by the account generators).
+func observed() []common.Address {
+	return append(append([]common.Address(nil), universe...), penaltyTo)
+}
+
+// blobStr prints short blobs in hex and long ones (the 24 KiB codes of C10) as length + digest.
+func blobStr(b []byte) string {
+	if len(b) <= 64 {
+		return fmt.Sprintf("%x", b)
+	}
+	h := sha256.Sum256(b)
+	return fmt.Sprintf("len=%d sha256=%x", len(b), h[:8])
+}
+
 // Obs is a full observation of a state: key → printable value.
 type Obs map[string]string
 
@@ -115,14 +131,14 @@ func bigStr(b *big.Int) string {
 
 // observeLive reads everything the exported getters expose (does not compute roots).
 func observeLive(st *state.StateDB, o Obs) {
-	for _, a := range universe {
+	for _, a := range observed() {
 		p := "acct/" + nm(a) + "/"
 		o[p+"exist"] = fmt.Sprint(st.Exist(a))
 		o[p+"empty"] = fmt.Sprint(st.Empty(a))
 		o[p+"balance"] = bigStr(st.GetBalance(a))
 		o[p+"nonce"] = fmt.Sprint(st.GetNonce(a))
 		o[p+"codehash"] = st.GetCodeHash(a).Hex()
-		o[p+"code"] = fmt.Sprintf("%x", st.GetCode(a))
+		o[p+"code"] = blobStr(st.GetCode(a))
 		o[p+"codesize"] = fmt.Sprint(st.GetCodeSize(a))
 		o[p+"suicided"] = fmt.Sprint(st.HasSuicided(a))
 		o[p+"ndelegations"] = fmt.Sprint(st.GetCountOfDelegateTo(a))
@@ -245,7 +261,7 @@ func dumpInto(db state.Database, r1, r2, r3 common.Hash, o Obs, prefix string, d
 				}
 				if len(acc.CodeHash) > 0 && common.BytesToHash(acc.CodeHash) != emptyCodeHash {
 					code, err := db.ContractCode(common.BytesToHash(it.Key), common.BytesToHash(acc.CodeHash))
-					o[fmt.Sprintf("%scode/%x", prefix, it.Key)] = fmt.Sprintf("%x err=%v", code, err)
+					o[fmt.Sprintf("%scode/%x", prefix, it.Key)] = fmt.Sprintf("%s err=%v", blobStr(code), err)
 				}
 				if len(acc.DelegationsHash) > 0 {
 					blob, err := db.DelegationBytes(common.BytesToHash(acc.DelegationsHash))
@@ -362,6 +378,9 @@ func nm(x interface{}) string {
 		}
 		if v == ripemd {
 			return "RIPEMD"
+		}
+		if v == penaltyTo {
+			return "PENALTY"
 		}
 		return v.Hex()[2:10]
 	case common.Hash:
